@@ -8,7 +8,7 @@
 src=$1; prop=$2; id=$3; shift 3; extra="$@"
 dst=/verif/seeded/$id; mkdir -p $dst
 cp $src/patch.diff $dst/patch.diff; cp $src/demo_test.go $dst/demo_test.go.txt; cp $src/notes.txt $dst/notes.txt 2>/dev/null
-[ -z "$(git -C /repo status --porcelain)" ] || { echo "/repo is not clean"; exit 3; }
+[ -n "${SEED_SCRATCH:-}" ] || [ -z "$(git -C /repo status --porcelain)" ] || { echo "/repo is not clean"; exit 3; }
 wt=/tmp/sc_$id; git -C /repo worktree remove --force $wt 2>/dev/null; rm -rf $wt
 git -C /repo worktree add --detach $wt HEAD >/dev/null 2>&1 || { echo "cannot create worktree"; exit 3; }
 pkg=$(grep -m1 -o 'place in: *[A-Za-z0-9_/.-]*' $src/demo_test.go | sed 's/place in: *//; s:/*$::')
@@ -41,9 +41,24 @@ res "existing tests with patch ($pkgs): exit $d (expected 0)"
 confirmed=false; [ $a -eq 0 ] && [ $b -eq 0 ] && [ $c -ne 0 ] && [ $d -eq 0 ] && confirmed=true
 res "confirmed=$confirmed"
 cd /; git -C /repo worktree remove --force $wt; git -C /repo worktree prune
-# run the checks on /repo with the patch applied, then undo
+# run the checks with the patch applied, then undo.
+# default: git -C /repo apply; ./check; git -C /repo checkout -- .   (serial: /repo is shared)
+# SEED_SCRATCH=1: the same check binary and contracts, run against a scratch COPY of /repo's working tree with the patch applied
+# (govc check --repo <copy> --verif <scratch>), so that several seeds can be confirmed in parallel; the copy is removed afterwards.
 detected=""; : > $dst/check_with_patch.log
-if git -C /repo apply $src/patch.diff; then
+if [ -n "${SEED_SCRATCH:-}" ]; then
+  sc=$(mktemp -d /tmp/verif-seed.XXXXXX); mkdir -p $sc/repo $sc/verif/govc
+  rsync -a --exclude .git /repo/ $sc/repo/; ln -s /verif/govc/trusted $sc/verif/govc/trusted; cp /verif/known_findings.json $sc/verif/
+  if (cd $sc/repo && patch -p1 -s --no-backup-if-mismatch < $src/patch.diff); then
+    for p in $prop $extra; do
+      GOFLAGS=-mod=vendor GOPROXY=off GOSUMDB=off GOTOOLCHAIN=local /verif/bin/govc check $p --tier quick --repo $sc/repo --verif $sc/verif > /tmp/seedcheck_$id.log 2>&1; e=$?
+      { echo "=== govc check $p (scratch copy of /repo + patch) exit $e"; grep -E 'VIOLATION|KNOWN-FINDING|machinery error|contract-stale|obligations,' /tmp/seedcheck_$id.log | sed "s#$sc/verif#/verif#g; s#$sc/repo#/repo#g" | cut -c1-400; } >> $dst/check_with_patch.log
+      [ $e -eq 1 ] && detected="$detected $p"
+      [ $e -ge 2 ] && detected="$detected $p(exit$e)"
+    done
+  fi
+  rm -rf $sc
+elif git -C /repo apply $src/patch.diff; then
   for p in $prop $extra; do
     (cd /verif && ./check $p --tier quick) > /tmp/seedcheck_$id.log 2>&1; e=$?
     { echo "=== ./check $p exit $e"; grep -E 'VIOLATION|KNOWN-FINDING|machinery error|contract-stale|obligations,' /tmp/seedcheck_$id.log | cut -c1-400; } >> $dst/check_with_patch.log
@@ -70,7 +85,7 @@ meta = {
    "go build ./... with the change (build_with_patch.log)",
    "demo test with the change: must fail (demo_with_patch.log)",
    "existing tests with the change: go test" + pkgs + " (pkgtests_with_patch.log)",
-   "git -C /repo apply patch.diff; ./check <property> --tier quick; git -C /repo checkout -- . (check_with_patch.log)"],
+   "check of the property with the change applied (check_with_patch.log): either git -C /repo apply patch.diff; ./check <property> --tier quick; git -C /repo checkout -- . or, when several seeds were confirmed in parallel, the same govc binary and contracts against a scratch copy of /repo's working tree with the patch applied (the log says which)"],
  "detected_by_checks": detected.split(), "violation_lines": viol,
 }
 json.dump(meta, open(os.path.join(dst, 'meta.json'), 'w'), indent=1)
